@@ -406,3 +406,72 @@ func GoRootSrc() string {
 	}
 	return filepath.Join(gr, "src")
 }
+
+// ---------------------------------------------------------------- recorded finding classes (see known_findings.json)
+
+// ForkTreeClass inspects the fork's node list for the constructs behind the recorded C24 findings:
+//
+//	"expr-block"            a `{ ... }` block accepted as an operand (returned as UnaryExpr{Op: etoken.MACRO, X: FuncLit});
+//	                        any unary/binary operator that is not a Go token is reported as this class too
+//	"ellipsis-array-field"  a named parameter/result/receiver/field whose type is `[...]T` (go/parser >= 1.18 rejects it
+//	                        while parsing the parameter/field; the go1.10-era fork leaves it to the type checker)
+func ForkTreeClass(nodes []ast.Node) string {
+	cls := ""
+	for _, n := range nodes {
+		if n == nil {
+			continue
+		}
+		ast.Inspect(n, func(x ast.Node) bool {
+			switch x := x.(type) {
+			case *ast.UnaryExpr:
+				if x.Op > token.TILDE {
+					cls = "expr-block"
+				}
+			case *ast.BinaryExpr:
+				if x.Op > token.TILDE {
+					cls = "expr-block"
+				}
+			case *ast.Field:
+				if len(x.Names) > 0 {
+					if at, ok := x.Type.(*ast.ArrayType); ok {
+						if el, ok := at.Len.(*ast.Ellipsis); ok && el.Elt == nil && cls == "" {
+							cls = "ellipsis-array-field"
+						}
+					}
+				}
+			}
+			return true
+		})
+	}
+	return cls
+}
+
+// CommentAfterMultilineToken: a comment starts on the line where a raw string literal spanning several lines ends.
+// In ParseComments mode go/parser compares the comment's line with the line where the previous token STARTS, the fork
+// (whose scanner emits the automatic semicolon before the comment, finding #14 of C23) with the line where it ends,
+// so only the fork attaches such a comment as a line comment.
+func CommentAfterMultilineToken(src []byte) bool {
+	var s scanner.Scanner
+	fset := token.NewFileSet()
+	f := fset.AddFile("x.go", -1, len(src))
+	s.Init(f, src, func(token.Position, string) {}, scanner.ScanComments)
+	endLine := -1
+	for {
+		pos, tok, lit := s.Scan()
+		switch {
+		case tok == token.EOF:
+			return false
+		case tok == token.COMMENT:
+			if endLine >= 0 && f.Line(pos) == endLine {
+				return true
+			}
+		case tok == token.SEMICOLON && lit == "\n":
+			// automatic semicolon: keeps endLine (go/scanner emits it after the comment)
+			continue
+		case tok == token.STRING && strings.Contains(lit, "\n"):
+			endLine = f.Line(pos) + strings.Count(lit, "\n")
+			continue
+		}
+		endLine = -1
+	}
+}
